@@ -87,6 +87,9 @@ func c15IndirectProgram(dir string, obj c15Obj, via, block string, outer bool) (
 }
 
 func c15IndirectRun(c *core.Ctx) {
+	if c15Skip(c, "indirect") {
+		return
+	}
 	dir := core.Scratch("c15indirect")
 	var idx int64
 	for oi, obj := range c15Objs {
@@ -157,6 +160,9 @@ var c15Multi = []struct{ prog, want, wantErr string }{
 }
 
 func c15MultiRun(c *core.Ctx) {
+	if c15Skip(c, "multi") {
+		return
+	}
 	dir := core.Scratch("c15multi")
 	for i, tc := range c15Multi {
 		if !c.Mine(int64(i)) {
